@@ -57,6 +57,10 @@ def specs(tier):
     add([('D1', .5), ('M', .5)], omen(OMEN_Z, [(1, .25), (2, .125)]), 'ngram3, two initial n-grams per level')
     # a level >= 2 that is NOT the last pre-terminal and contains strings whose length has level 2 (several lengths per level)
     add([('M', .6), ('D1', .4)], omen(OMEN_Z, [(1, .5), (2, .25), (3, .0625)]), 'ngram3, levels 1-3, Markov levels interleaved with dictionary pre-terminals')
+    # levels of exactly equal probability share one pre-terminal (the trainer writes 0.0 for every level without a training password):
+    # a quit inside the first level owes the rest of it AND the later levels of the group
+    add([('M', .5), ('D1', .5)], omen(OMEN_X, [(1, .25), (2, .25), (3, .125)]), 'levels 1 and 2 tied in one pre-terminal')
+    add([('D1', .5), ('M', .5)], omen(OMEN_X, [(1, .5), (2, 0.0), (3, 0.0)]), 'levels 2 and 3 share probability 0.0, last pre-terminal')
     if tier == 'thorough':
         add([('M', .5), ('A1D1', .5)], omen(OMEN_Y, [(1, .25), (2, .0625)]), 'ngram2 three letters')
         add([('A1', .5), ('M', .25), ('D1D1', .25)], omen(OMEN_X, [(1, .5), (2, .25), (3, .125)]), 'three structures')
